@@ -233,7 +233,7 @@ class _:
     dense / sparse / Kruskal / Tucker holders; round trips; sparse reshape of a mode subset."""
 
     def cases(self, tier, rng):
-        shapes = [(3,), (2, 3), (1, 3), (2, 1, 2), (2, 3, 2), (1, 1)] if tier == "quick" else [s for s in shapes_upto(12, 4)]
+        shapes = [(3,), (2, 3), (1, 3), (2, 1, 2), (2, 3, 2), (1, 1), (2, 3, 4)] if tier == "quick" else [s for s in shapes_upto(12, 4)] + [(2, 3, 4), (3, 2, 2, 3)]
         for shp in shapes:
             yield dict(shape=list(shp), seed=rng.randrange(10**6))
 
@@ -292,7 +292,7 @@ class _:
         # sparse reshape of a subset of modes (moved to the end)
         if N >= 2:
             for k in range(1, N):
-                for modes in itertools.combinations(range(N), k):
+                for modes in itertools.permutations(range(N), k):
                     keep = [m for m in range(N) if m not in modes]
                     sub_tot = int(np.prod([shp[m] for m in modes]))
                     Rs = S.reshape((sub_tot,), np.array(modes))
